@@ -385,6 +385,16 @@ func Ite(c, a, b *Term) *Term {
 	if a.op == "ite" && a.args[0] == c {
 		return Ite(c, a.args[1], b)
 	}
+	// ite(c, x, ite(d, x, y)) = ite(c or d, x, y): alternatives with the same value are one
+	// alternative (keeps the nesting of merged values shallow)
+	if a.sort != BoolSort {
+		if b.op == "ite" && b.args[1] == a {
+			return Ite(Or(c, b.args[0]), a, b.args[2])
+		}
+		if a.op == "ite" && a.args[2] == b {
+			return Ite(And(c, a.args[0]), a.args[1], b)
+		}
+	}
 	return mk("ite", a.sort, c, a, b)
 }
 
